@@ -120,11 +120,21 @@ def ob_e2e(ctx):
     vd = cat(o[c], vb, o[0], mk.seq("vy", off, "ACGT"), g.rsite, mk.seq("vp", 2, "ACGT"), g.site, mk.seq("vx", off, "ACGT"))
     rpos = g.ovl + 2 + g.ovl + off
     only_sites(ctx, vd, slen(vd), g, {("r", rpos), ("f", rpos + g.L + 2)})
-    Mc, Vc = generic_class(st, "module", enzyme), generic_class(st, "vector", enzyme)
+    Vc = generic_class(st, "vector", enzyme)
+    if P.get("typed"):
+        # signature-typed part classes; the replacement is a revised plasmid filed under the same accession as the part
+        # it replaces, and the parts of the first assembly are still alive when the second one runs
+        from .c05 import user_class
+
+        Mc = user_class(st, "module", enzyme, ("N" * g.ovl, "N" * g.ovl))
+    else:
+        Mc = generic_class(st, "module", enzyme)
+    alive = []
 
     def run(ds):
         mods = [Mc(st.record.CircularRecord(st.Seq(d), id="m%d" % i)) for i, d in enumerate(ds)]
         vec = Vc(st.record.CircularRecord(st.Seq(vd), id="vec"))
+        alive.extend(mods + [vec])
         return vec.assemble(*mods)
 
     p1 = sdata(run(datas).seq)
@@ -155,4 +165,7 @@ def obligations(tier, seed):
             for newlen in (5, 2):
                 obs.append(Ob("end-to-end %s replace module %d (new target %d nt, every rotation of the replacement)" % (e, j, newlen),
                               ob_e2e, dict(enzyme=e, replace=j, newlen=newlen), samples=3, cost=20000))
+            if e in ("BsaI", "BbsI"):
+                obs.append(Ob("end-to-end %s typed parts, replace module %d by a same-accession revision" % (e, j),
+                              ob_e2e, dict(enzyme=e, replace=j, newlen=4, typed=True), samples=3, cost=20000))
     return obs
